@@ -156,6 +156,10 @@ func EmitCase(w *bufio.Writer, id int, stream string, hex bool, text []byte, o O
 				}
 			}
 		}
+		if len(text) <= 2500 {
+			// the parsed document as a Gallina term, for the vm_compute cross-check (thorough tier)
+			fmt.Fprintf(w, "COQAST %s\n", CoqFile(o.File))
+		}
 		wt, pan := WriteSafe(o.File, hex)
 		if pan != "" {
 			fmt.Fprintf(w, "WPANIC\n")
